@@ -183,6 +183,8 @@ pub fn det_requests(ctx: &mut Ctx, rng: &mut Rng, extra: &[String]) {
             1 => src0.replace("\r\n", "\n").replace('\n', "\r\n"),
             2 => src0.trim_end_matches(|c| c == '\n' || c == '\r').to_string(),
             3 => format!("// \u{8a08}\u{6570}\u{5668} \u{2014} \u{e9}\u{1F600}\r\n{}", src0),
+            // constructs that span several lines: the same tokens with random line breaks and comments between them
+            4 => relayout(src0, rng, false).map(|x| x.0).unwrap_or_else(|| src0.clone()),
             _ => src0.clone(),
         };
         let src = &laid_out;
